@@ -44,15 +44,15 @@ Proof.
   - intros i v H. cbn. rewrite Nat.eqb_refl, H. reflexivity.
 Qed.
 
-Theorem layout_ok_complete c img :
+Theorem layout_ok_complete c img : has_refs (lc_ty c) = false ->
   enc (lc_ty c) (lc_val c) = Some img -> len img = lc_size c -> lc_size c < 2^62 ->
   cells_match img (lc_bytes c) = true -> layout_ok c = None.
 Proof.
-  intros He Hl Hb Hc. unfold layout_ok. rewrite He.
+  intros Hrf He Hl Hb Hc. unfold layout_ok. rewrite He.
   pose proof (cells_match_length _ _ Hc) as Hlen.
   assert (Hlb : len (lc_bytes c) = lc_size c) by (unfold len in *; lia).
   rewrite Hl, Hlb, Z.eqb_refl. cbn [negb orb]. rewrite Hc. cbn [negb].
-  pose proof (dec_enc_buffer (lc_ty c) (lc_val c) img [] (lc_bytes c) [] He Hc ltac:(lia)) as Hd.
+  pose proof (dec_enc_buffer (lc_ty c) (lc_val c) img [] (lc_bytes c) [] Hrf He Hc ltac:(lia)) as Hd.
   cbn [app] in Hd. rewrite app_nil_r in Hd. change (len (@nil Z)) with 0 in Hd. rewrite Hd.
   rewrite val_eqb_refl, Hl, Z.eqb_refl. reflexivity.
 Qed.
